@@ -2,4 +2,5 @@ pub mod c01;
 pub mod c05;
 pub mod c07;
 pub mod c08;
+pub mod c17;
 pub mod swaps;
